@@ -799,19 +799,39 @@ func runFF(o *Opts) *Summary {
 			// behind: its anchor lies behind g's own last block (a reset backwards).
 			// babble only fast-forwards a node that is behind: everybody pulls all of g's
 			// events, then g stays silent while the others go on.  (Sending back a node
-			// that is ahead of its peers - or serving it from a peer behind its own tip -
-			// makes it forget events nobody else holds and re-use their heights.)
+			// that is ahead of its peers makes it forget events nobody else holds and
+			// re-use their heights.)
 			var lag *NNode
-			others := []*NNode{}
-			for _, nd := range all {
-				if nd != g {
-					others = append(others, nd)
-					if nd.State() == "Babbling" {
-						vn.Pull(nd, g, false)
+			if t%4 == 0 && len(run) >= 3 && o.Store != "badger" {
+				// the backward variant: g is only moderately behind, and the one peer it
+				// reaches for its fast-forward request is behind g's own tip (it resets
+				// to a block index below its last block).  Not over a Badger store (the
+				// database keeps the events of before the reset).
+				lag = run[len(run)-1]
+				rest := []*NNode{}
+				for _, nd := range all {
+					if nd != lag {
+						rest = append(rest, nd)
 					}
 				}
+				gossip(o.Steps/3, rest)
+				for _, nd := range all {
+					if nd != lag && nd != g {
+						vn.down[nd.num] = true
+					}
+				}
+			} else {
+				others := []*NNode{}
+				for _, nd := range all {
+					if nd != g {
+						others = append(others, nd)
+						if nd.State() == "Babbling" {
+							vn.Pull(nd, g, false)
+						}
+					}
+				}
+				gossip(o.Steps/3, others)
 			}
-			gossip(o.Steps/3, others)
 			g.node.VTransition(_state.CatchingUp)
 			w.Emit(g.num, "StateChange", map[string]interface{}{"from": "Babbling", "to": "CatchingUp", "why": "driver"}, nil)
 			for q := 0; q < 4; q++ {
